@@ -60,6 +60,11 @@ def jobs(tier):
             shape = "flat2" if len(dmg) == 2 else "nested3"
             out.append(("v%d.%s.P16384.identical-files.%s" % (version, shape, "-".join(k[0] for k in dmg)), "job_recheck",
                         dict(prop="C16", version=version, shape=shape, P=16384, K=2 if shape == "flat2" else 1, dmg=dmg, source="ref", dup=True)))
+    for version in (2, 3, 1):       # sibling sub-directories, the damage below the later one
+        for shape, dmg in (("nested4", ["intact", "intact", "flip", "intact"]), ("nested4", ["intact", "intact", "missing", "intact"]),
+                           ("samename2", ["intact", "trunc"]), ("samename2", ["intact", "flip"])):
+            out.append(("v%d.%s.P16384.%s.siblings" % (version, shape, "-".join(k[0] for k in dmg)), "job_recheck",
+                        dict(prop="C16", version=version, shape=shape, P=16384, K=1, dmg=dmg, source="ref")))
     out.extend(rk.matrix_rows(tier, "C16"))
     # a v1 file list in an order other tools write: the files of one directory are not next to each other
     for dmg in (["intact", "intact", "intact"], ["intact", "flip", "intact"], ["missing", "intact", "intact"], ["intact", "intact", "trunc"]):
